@@ -74,7 +74,7 @@ func scanPrelude(pre string) (heapFns map[string]bool, fnSort map[string]Sort) {
 func (x *Exec) stringDecls() string {
 	var sb strings.Builder
 	for i, s := range x.strList {
-		n := fmt.Sprintf("str_%d", i)
+		n := fmt.Sprintf("strk_%d", i)
 		fmt.Fprintf(&sb, "(declare-const %s Str)\n(assert (= (slen %s) %d))\n", n, n, len(s))
 		for j := 0; j < len(s); j++ {
 			fmt.Fprintf(&sb, "(assert (= (at %s %d) %d))\n", n, j, s[j])
